@@ -33,6 +33,7 @@ RULE = (
 )
 RULE += (" " + 'Pipelines are also scoped to a log source that matches all or none of the rules, and the outer correlation rule may carry group-by and a condition field, which must be mapped like those of the referenced rules.')
 RULE += (" Referenced rules and the correlation rule carry optional fields lists; with a fields expression configured the fields slot must list them in reference order, de-duplicated, without group-by fields, after field mapping.")
+RULE += (" A third of the cases selects a non-default correlation method whose templates are the unmarked ones (every template of the default method carries a marker).")
 ASSUMPTIONS = [
     "solo queries of referenced rules are computed by the same backend class on fresh objects (isolation, not semantics)",
     "the unit lengths s/m/h/d/w/M/y = 1/60/3600/86400/604800/2629746/31556952 seconds",
@@ -109,6 +110,8 @@ def check_case(case: dict) -> Outcome:
     multi_cond = any(isinstance(by_key[r]["detection"]["condition"], list) for r in refs)
     out.nontrivial = len(refs) >= 2 or multi_cond or (bool(c.get("aliases")) and bool(pspec)) or (ext and sum(c["condition"].count(o) for o in (" and ", " or ", "not ")) >= 2)
     out.label("type:" + c["type"] + ("+ext" if ext else ""), "ts:" + ccfg.get("timespan", "passthrough"))
+    if ccfg.get("method"):
+        out.label("non-default-correlation-method")
     # actual
     try:
         coll = SigmaCollection.from_dicts(copy.deepcopy(rules + corrs))
@@ -118,7 +121,7 @@ def check_case(case: dict) -> Outcome:
             per.setdefault(rule.title, []).append(result)
             return result
 
-        _backend(cfg, ccfg, pspec).convert(coll, callback=cb)
+        _backend(cfg, ccfg, pspec).convert(coll, callback=cb, **({"correlation_method": ccfg["method"]} if ccfg.get("method") else {}))
     except (SigmaError, NotImplementedError) as e:
         out.fail(f"C10:conversion-failed:{type(e).__name__}", f"{type(e).__name__}: {e}; corr {c} ccfg {ccfg}")
         return out
@@ -298,6 +301,8 @@ def cases(draw):
     ccfg = {"timespan": draw(st.sampled_from(["mapping", "seconds", "passthrough"])), "typing": draw(st.booleans()),
             "single": draw(st.booleans()), "finalize_sub": draw(st.booleans()), "fields": draw(st.booleans()),
             "normalization": True}
+    if draw(st.integers(0, 2)) == 0:
+        ccfg["method"] = "other"  # a non-default correlation method selected by the caller
     pspec = draw(st.sampled_from([None, {"mapping": True}, {"mapping": True, "prefix": True, "post": True}, {"post": True}, {"prefix": True}]))
     if pspec and draw(st.integers(0, 2)) == 0:
         pspec = dict(pspec, scope=draw(st.sampled_from(["proc", "proc", "net"])))
